@@ -631,6 +631,35 @@ pub fn f8_reject(rng: &mut Rng, name: &str) -> (Def, &'static str) {
             cat = "empty";
         }
         1 => {
+            if rng.chance(1, 2) {
+                // every dot flavour (flags s, R, -u; byte-string literals) x quantifier x context x position
+                let (dot, bytes_only) = *rng.pick(&[(".", false), ("(?s:.)", false), ("(?R:.)", false), ("(?sR:.)", false), ("[^\\n]", false),
+                    ("(?-u:.)", true), ("(?s-u:.)", true), ("(?R-u:.)", true), ("(?sR-u:.)", true)]);
+                let quant = rng.pick_str(&["*", "+", "{2,}", "{0,}", "{1,}"]);
+                let ctx = rng.pick_str(&["{D}", "a{D}", "({D})", "a|{D}", "x({D})y", "(a{D})+", "({D}a){2}", "a(b|c{D})", "(?:{D})?z"]);
+                let as_bytes_literal = rng.chance(1, 4);
+                // in a byte-string literal the plain dot is already a byte dot
+                let dot = if as_bytes_literal { rng.pick_str(&[".", "(?s:.)", "(?R:.)", "(?s).", "(?R)."]) } else { dot };
+                let text = ctx.replace("{D}", &format!("{dot}{quant}"));
+                if bytes_only || as_bytes_literal {
+                    def.utf8 = false;
+                } else {
+                    def.utf8 = rng.chance(2, 3);
+                }
+                let lit = if as_bytes_literal { Lit::b(text.as_bytes()) } else { Lit::s(&text) };
+                let kind = if rng.chance(1, 3) { PatKind::Skip } else { PatKind::Regex };
+                let mut p = Pat::new(kind, lit, 0);
+                match rng.below(4) {
+                    0 => p.priority = Some(rng.range(1, 30)),
+                    1 => p.allow_greedy = Some(false),
+                    2 => p.ignore_case = true,
+                    _ => {}
+                }
+                def.push(p);
+                def.push(Pat::token("zz", 0));
+                def.normalize();
+                return (def, "greedy");
+            }
             let t = rng.pick_str(&[".*", ".+", "a.*", "(a.*)+", "(.+)", "a|.*", "x(.*)y", "[^\\n]*", "[^\\n]+b", "(?s:.)*", "(?s).+", "(a|(b.*))c", "((x.+)?y)z", "(.*a){2}", ".{2,}", "a(b|c.*)"]);
             def.push(Pat::regex(t, 0));
             cat = "greedy";
